@@ -964,7 +964,11 @@ func (s *scanner) ReadStreamData(dict Dict) (stm *Stream, err error) {
 		if err != nil {
 			return nil, err
 		}
-		l, err = trimTrailingEOL(origReader, start, eolPos-start)
+		// The byte at eolPos is (the last byte of) the EOL marker in front of
+		// "endstream".  It is included in the range handed to
+		// trimTrailingEOL, so that exactly this one marker (LF, CR or CR LF)
+		// is removed and an EOL which ends the data itself is kept.
+		l, err = trimTrailingEOL(origReader, start, eolPos+1-start)
 		if err != nil {
 			return nil, err
 		}
